@@ -123,6 +123,25 @@ func (h *H) mixed(mult int) {
 		h.frameCrypt(witnessFrame(), 0)
 	}
 	h.forceSpare = -1
+	// several proprietary commands of ONE CID in one encrypted stream: DecryptFOpts / DecryptFRMPayload with the
+	// right key must give every command the bytes of its own wire segment (compared with the heap model)
+	for i := 0; i < 6*mult; i++ {
+		up := i%2 == 0
+		var k lorawan.AES128Key
+		copy(k[:], h.r.Bytes(16))
+		cmds, _ := propCmds(h.r, up, 2+h.r.Intn(2), i%3 != 2)
+		if i%4 < 2 {
+			f := newDataFrame(h.r, up, cmds, []int{-1, 7}[i%2], nil)
+			if f.EncryptFOpts(k) == nil {
+				h.frameCryptKey(*f, 4, &k)
+			}
+		} else {
+			f := newDataFrame(h.r, up, nil, 0, cmds)
+			if f.EncryptFRMPayload(k) == nil {
+				h.frameCryptKey(*f, 2, &k)
+			}
+		}
+	}
 	for i := 0; i < 30*mult; i++ {
 		v := []int{0, 0, 1, 0, 1, 2}[i%6]
 		p := mixedFrame(h.r, v)
